@@ -128,9 +128,12 @@ def failures_of_case(c):
             for nm in names:
                 if nm in PRED_PROP:
                     if late:
-                        out.append((PRED_PROP[nm], "property",
-                                    PRED_WHAT[nm] + " - in a scenario where batchMessages ran after Close (defect F3: a second "
-                                    "partition writer for the same partition runs concurrently)", F3_KEY))
+                        # consequence of F3 (timing-dependent, so not a deterministic verdict of this
+                        # check): recorded in the evidence notes; the F3 failure itself is C09's
+                        out.append((PRED_PROP[nm], "note",
+                                    PRED_WHAT[nm] + " - in a scenario where batchMessages ran after Close (defect F3, reported by "
+                                    "C09 under key " + F3_KEY + ": a second partition writer for the same partition runs "
+                                    "concurrently; the theorems of this property assume s_late = false)", F3_KEY))
                     else:
                         out.append((PRED_PROP[nm], "property", PRED_WHAT[nm], None))
                 elif nm.startswith(CORR_NAMES):
@@ -163,8 +166,10 @@ TRIVIAL_TAGS = {"callers=1", "sync", "det", "acked-only", "nondet"}
 
 
 def nontrivial(c):
+    if c["op"] == "wm":
+        return "queued" in c["feats"] or "call-split" in c["feats"]
     if c["op"] != "e2e":
-        return c["op"] in ("wm", "f3") or "limit" in c["feats"] or "exact" in c["feats"] or "over" in c["feats"]
+        return c["op"] == "f3" or any(t in c["feats"] for t in ("exact", "full-by", "oversize", "beyond", "rejected"))
     tags = set(t for t in c["feats"].split(",") if t)
     return bool(tags - TRIVIAL_TAGS)
 
@@ -172,12 +177,15 @@ def nontrivial(c):
 def correspondence_for(prop, ctx, rule_extra=""):
     r = shared_run(ctx)
     cases = [c for c in r["cases"] if relevant(prop, c)]
-    failures, seen = [], set()
+    failures, seen, notes = [], set(), []
     for c in sorted(r["cases"], key=lambda c: 0 if c["op"] == "f3" else 1):
         for (p, layer, what, key) in failures_of_case(c):
             if p not in ("*", prop):
                 continue
             k = (layer, what, key)
+            if layer == "note":
+                notes.append(what + " [case " + c["id"] + ": " + c["line"][:300] + " ...]")
+                continue
             if k in seen:
                 continue
             seen.add(k)
@@ -199,7 +207,7 @@ def correspondence_for(prop, ctx, rule_extra=""):
     samples = [c["line"][:400] + " | " + c["go"][:60] + " | " + c["feats"][:120]
                for c in (cases[:2] + e2e[:2] + e2e[len(e2e)//2:len(e2e)//2+2] + cases[-1:])]
     return dict(
-        evaluations=len(cases), distinct_nontrivial=len(dn), hist=hist, samples=samples, failures=failures,
+        evaluations=len(cases), distinct_nontrivial=len(dn), hist=hist, samples=samples, failures=failures, notes=notes[:5],
         rule="cases from one PRNG (VERIF_SEED) in harness/cmd/writer: step-level (writeBatch.add/full with sizes at / one below / one above "
              "the limits; totalSize; partitionWriter.writeMessages call sequences) and end-to-end scenario programs on the real Writer over "
              "the fakert RoundTripper fake (1-8 callers, sync/async, BatchSize 1..10, BatchBytes 60..2000, BatchTimeout 1-20 ms, MaxAttempts 1-4, "
